@@ -123,7 +123,7 @@ MODELLED = {
                       'BasicLexer.__init__', 'BasicLexer._build_scanner', 'BasicLexer.next_token', 'ContextualLexer.__init__', 'ContextualLexer.lex'],
     'lark/parsers/earley.py': ['Parser.predict_and_complete', 'Parser._parse', 'Parser.parse'],
     'lark/parsers/xearley.py': ['Parser._parse'],
-    'lark/parsers/earley_forest.py': ['PackedNode.sort_key', 'ForestSumVisitor.visit_packed_node_out', 'ForestSumVisitor.visit_symbol_node_out', 'ForestVisitor.visit', 'ForestToParseTree.visit_packed_node_in'],
+    'lark/parsers/earley_forest.py': ['PackedNode.sort_key', 'PackedNode.__eq__', 'PackedNode.__init__', 'SymbolNode.add_family', 'SymbolNode.is_ambiguous', 'ForestToParseTree.on_cycle', 'TreeForestTransformer._call_rule_func', 'ForestSumVisitor.visit_packed_node_out', 'ForestSumVisitor.visit_symbol_node_out', 'ForestVisitor.visit', 'ForestToParseTree.visit_packed_node_in'],
     'lark/parsers/grammar_analysis.py': ['calculate_sets', 'GrammarAnalyzer.expand_rule'],
     'lark/parsers/lalr_analysis.py': ['digraph', 'traverse', 'LALR_Analyzer.compute_lr0_states', 'LALR_Analyzer.compute_reads_relations', 'LALR_Analyzer.compute_includes_lookback',
                                       'LALR_Analyzer.compute_lookaheads', 'LALR_Analyzer.compute_lalr1_states'],
